@@ -27,8 +27,8 @@ const SPEC: Spec = Spec {
         "quickcheck Gen::new (entropy-seeded) is not called; Gen::from_size_and_seed is enumerated instead",
     ],
     bounds_quick: "BigInt and BigUint models: depth 3 from all initial constructions (13 values x 4 construction ways + inconsistent sign/magnitude requests), ~75 actions per state; generators: arbitrary over all byte strings {00,01,ff}^<=8, quickcheck (size<=8, seed<1024), shrink of the pool",
-    bounds_thorough: "BigInt and BigUint models: depth 4 (digit cap 8); generators: arbitrary over {00,01,ff}^<=10, quickcheck (size<=8, seed<4096)",
-    hang_secs: 900,
+    bounds_thorough: "BigInt and BigUint models: depth 5 (digit cap 8; ~4.6*10^7 states, ~8 min, 4.3 GB); generators: arbitrary over {00,01,ff}^<=10, quickcheck (size<=8, seed<4096)",
+    hang_secs: 120,
     probes: None,
     max_workers: 1,
 };
@@ -537,6 +537,7 @@ impl Model for IntModel {
         let cap_before = raw_bigint(&x).2;
         let was_neg = v.neg;
         self.shared.transitions.fetch_add(1, AO::Relaxed);
+        runner::tick();
         let r = apply_int(&mut x, &mut v, a);
         let mut hist = last.hist.clone();
         hist.push(a);
@@ -781,6 +782,7 @@ impl Model for UintModel {
         }
         let cap_before = raw_biguint(&x).1;
         self.shared.transitions.fetch_add(1, AO::Relaxed);
+        runner::tick();
         let r = apply_uint(&mut x, &mut v, a);
         let mut hist = last.hist.clone();
         hist.push(a);
@@ -798,7 +800,7 @@ impl Model for UintModel {
 }
 
 fn run_hist(ctx: &mut Ctx) {
-    let depth = ctx.tier.pick(3, 4);
+    let depth = std::env::var("NBMC_C04_DEPTH").ok().and_then(|s| s.parse().ok()).unwrap_or(ctx.tier.pick(3, 5));
     let threads = std::thread::available_parallelism().map(|n| n.get()).unwrap_or(4);
     if ctx.space("H-BigInt") && ctx.mine(0) {
         let refs: Vec<(Int, BigInt)> = ref_points().into_iter().map(|r| (r.clone(), bi_int(&r))).collect();
